@@ -225,7 +225,7 @@ def fam_poll(rnd, n):
     return res
 
 
-def fam_crash(rnd, n, crashmax=14, double=0, fn=True):
+def fam_crash(rnd, n, crashmax=14, double=0, fn=True, flip=False):
     """Crash-point enumeration over varied executions: failing plans, tolerated failures,
     check failures, bypasses, concurrency; outcomes a function of the action (first script
     element repeated) so that the outcome of the uninterrupted run is comparable."""
@@ -276,7 +276,16 @@ def fam_crash(rnd, n, crashmax=14, double=0, fn=True):
             a = rnd.choice(seq_actions(sh))
             if a not in out:
                 out[a] = ["tr", "ok"] if not fn else out.get(a, ["ok"])
-        res.append(scn(sh, "free", out, crash="sample", crashmax=crashmax, crash2max=double, fn=fn, tag="crash-" + kind, latmax=100, contdelay=300, waitms=5000))
+        extra = {}
+        if flip:
+            # the answer of one check action changes across the restart
+            cas = check_actions(sh)
+            if cas:
+                a = rnd.choice(cas)
+                o2 = dict(out)
+                o2[a] = ["ok"] if out.get(a, ["ok"])[0] != "ok" else ["perm"]
+                extra["out2"] = o2
+        res.append(scn(sh, "free", out, crash="sample", crashmax=crashmax, crash2max=double, fn=fn, tag="crash-" + kind + ("-flip" if flip else ""), latmax=100, contdelay=300, waitms=5000, **extra))
     return res
 
 
